@@ -22,7 +22,7 @@ for v in ev['coverage']['violations_detail'] or []:
     if v['status'] != 'reproduced':
         continue
     job = v['job']
-    key = (v['label'], job['mode'], job['pre'], job['co'])
+    key = (v['label'], job['mode'], job['pre'])
     if key in seen:
         continue
     what = "chunking changes the outcome (%s) for prefix %r in %s: %s; e.g. values %s" % (
@@ -30,7 +30,7 @@ for v in ev['coverage']['violations_detail'] or []:
         T_REPORT if 'typeahead-with-cursor-report' in v['label'] else T_GENERAL,
         json.dumps(v['vals'], sort_keys=True))
     seen[key] = {"property": "C05", "status": "known", "kind": "assert", "label": v['label'],
-                 "job": {"mode": job['mode'], "pre": job['pre'], "co": job['co']}, "what": what}
+                 "job": {"mode": job['mode'], "pre": job['pre']}, "what": what}
 new = list(seen.values())
 print("old C05 entries: %d, new: %d" % (len(old), len(new)), file=sys.stderr)
 json.dump(keep + new, open(kf_path, 'w'), indent=1, ensure_ascii=False)
